@@ -81,6 +81,27 @@ Fixpoint bump_N (k : N) (l : list (N * N)) : list (N * N) :=
 
 Definition connect_failed_msg (k : N) : str := lit "connect failed " ++ dec k.
 
+(* the for-loop of run_async, generic in what one attempt does:
+   for _ in 0..n { r = attempt(); if r is ok return r; sleep(d); last = r }  return last *)
+Section RetryGeneric.
+  Variables St Out : Type.
+  Variable attempt : St -> list event * St * Out * verdict.
+  Variable no_output : Out.
+
+  Fixpoint retry_gen (n : nat) (d : N) (s : St) (last : verdict) : list event * St * Out * verdict :=
+    match n with
+    | O => ([], s, no_output, last)
+    | S n' =>
+        let '(ev, s1, o, v) := attempt s in
+        match v with
+        | Pass => (ev, s1, o, Pass)
+        | _ =>
+            let '(ev2, s2, o2, v2) := retry_gen n' d s1 v in
+            (ev ++ [ESleep d] ++ ev2, s2, o2, v2)
+        end
+    end.
+End RetryGeneric.
+
 Section Runner.
   Variable re_match : str -> str -> bool.
   (* may_substitute with substitution on: sql? -> locals -> text -> Ok text | Err message *)
@@ -193,20 +214,14 @@ Section Runner.
     let '(ev, st1, w1, o) := apply_record st w r in
     (ev, st1, w1, o, judge re_match (cfg st1) r o).
 
-  (* the for-loop of run_async: attempts, each failed one followed by a sleep *)
-  Fixpoint retry_loop (n : nat) (d : N) (st : rstate) (w : world) (r : record) (last : verdict)
+  Definition attempt_record (r : record) (sw : rstate * world)
+    : list event * (rstate * world) * routput * verdict :=
+    let '(ev, st1, w1, o, v) := run_no_retry (fst sw) (snd sw) r in (ev, (st1, w1), o, v).
+
+  Definition retry_loop (n : nat) (d : N) (st : rstate) (w : world) (r : record) (last : verdict)
     : list event * rstate * world * routput * verdict :=
-    match n with
-    | O => ([], st, w, ONothing, last)
-    | S n' =>
-        let '(ev, st1, w1, o, v) := run_no_retry st w r in
-        match v with
-        | Pass => (ev, st1, w1, o, Pass)
-        | _ =>
-            let '(ev2, st2, w2, o2, v2) := retry_loop n' d st1 w1 r v in
-            (ev ++ [ESleep d] ++ ev2, st2, w2, o2, v2)
-        end
-    end.
+    let '(ev, sw, o, v) := retry_gen _ _ (attempt_record r) ONothing n d (st, w) last in
+    (ev, fst sw, snd sw, o, v).
 
   (* Runner::run_async *)
   Definition run_async (st : rstate) (w : world) (r : record)
@@ -218,20 +233,30 @@ Section Runner.
 
   Inductive final := FOk | FErr (k : kind) (l : loc) | FBug.
 
+  (* how a run over a list of records ends: ran off the end, stopped at a halt, or failed *)
+  Inductive ending := Finished | Halted | Stopped (f : final).
+
   (* Runner::run_multi_async *)
-  Fixpoint run_multi (st : rstate) (w : world) (rs : list record)
-    : list event * rstate * world * final :=
+  Fixpoint run_multi_e (st : rstate) (w : world) (rs : list record)
+    : list event * rstate * world * ending :=
     match rs with
-    | [] => ([], st, w, FOk)
-    | RHalt _ :: _ => ([], st, w, FOk)
+    | [] => ([], st, w, Finished)
+    | RHalt _ :: _ => ([], st, w, Halted)
     | r :: rest =>
         let '(ev, st1, w1, _, v) := run_async st w r in
         match v with
-        | Pass => let '(ev2, st2, w2, f) := run_multi st1 w1 rest in (ev ++ ev2, st2, w2, f)
-        | Fail k => (ev, st1, w1, FErr k (record_loc r))
-        | Unreachable => (ev, st1, w1, FBug)
+        | Pass => let '(ev2, st2, w2, f) := run_multi_e st1 w1 rest in (ev ++ ev2, st2, w2, f)
+        | Fail k => (ev, st1, w1, Stopped (FErr k (record_loc r)))
+        | Unreachable => (ev, st1, w1, Stopped FBug)
         end
     end.
+
+  Definition final_of (e : ending) : final :=
+    match e with Finished | Halted => FOk | Stopped f => f end.
+
+  Definition run_multi (st : rstate) (w : world) (rs : list record)
+    : list event * rstate * world * final :=
+    let '(ev, st', w', e) := run_multi_e st w rs in (ev, st', w', final_of e).
 
   (* calling Runner::run on each record in turn, whatever the verdicts (harness mode "each") *)
   Fixpoint run_each (st : rstate) (w : world) (rs : list record)
